@@ -257,6 +257,10 @@ func c11MakeCond() c11Cond {
 	}
 	// right side: a quoted string with two arbitrary bytes (anything but the quote), or a field
 	if verifrt.Bool("quoted") {
+		if verifrt.Bool("empty-string") {
+			// the empty string is a valid STRING operand
+			return c11Cond{text: id + " " + ops + " \"\"", l: id, r: "", lt: Field, rt: String, op: o.op}
+		}
 		s := verifrt.String("str", 2)
 		verifrt.Assume(s[0] != '"')
 		verifrt.Assume(s[1] != '"')
